@@ -985,5 +985,13 @@ def invariant_zero(ctx):
     return res
 
 
-RULES = [invariant_zero, operand_index, mirror_index, c04_chief_ray, c04_invariant, c01_media_chain, no_stale, lazy_def_use, location, formulas_and_degrees, identities,
+
+def c03_registry(ctx):
+    """shared with C03: FieldGroup.max_field, which scales the paraxial chief
+    ray (hence the invariant and every field-dependent term), is the largest
+    radial field"""
+    from .C03 import registry as _r
+    return _r(ctx)
+
+RULES = [c03_registry, invariant_zero, operand_index, mirror_index, c04_chief_ray, c04_invariant, c01_media_chain, no_stale, lazy_def_use, location, formulas_and_degrees, identities,
          operand_wrap]
